@@ -745,8 +745,38 @@ static std::string runOp(Bed& bed, const std::string& text)
 				prevCode = code; ++runLen; }
 			if (runLen > 0) gd = foldDigest(gd, runLen);
 			if (mask & 8) gd = -1; }
+		// DataSelection editing functions on a fresh selection (table order): a fixed script parameterised by the query, mirrored on
+		// a shadow vector (oracle) and by SelEditModel (model driver): Reverse, Add(row), Insert(index,row), Insert(index, range),
+		// Remove(index,count), Remove(filter), Set, Add(range), Assign
+		long ed_n = 0, ed_d = 0;
+		{
+			Table::Selection ed = table.Select(filter); std::vector<long> shv = expPos;
+			Table::Selection src = table.Select(filter);       // the rows handed in come from here
+			auto same = [&] (const char* what) {
+				bool ok = ed.GetCount() == shv.size();
+				for (size_t i = 0; ok && i < shv.size(); ++i) ok = bed.posOf(ed[i].GetRaw()) == shv[i];
+				if (!ok) bed.bad(std::string("Selection::") + what + ": selection differs from the list model"); };
+			ed.Reverse(); std::reverse(shv.begin(), shv.end()); same("Reverse");
+			size_t n0 = expPos.size();
+			if (n0 > 0) {
+				ed.Add(src[0]); shv.push_back(expPos[0]); same("Add(row)");
+				ed.Insert(size_t(1), src[n0 - 1]); shv.insert(shv.begin() + 1, expPos[n0 - 1]); same("Insert(index,row)");
+				size_t at = lb % (ed.GetCount() + 1);
+				ed.Insert(at, src.GetBegin(), src.GetEnd()); shv.insert(shv.begin() + long(at), expPos.begin(), expPos.end()); same("Insert(index,range)");
+				size_t ri = ub % ed.GetCount(); size_t rc = std::min<size_t>(2, ed.GetCount() - ri);
+				ed.Remove(ri, rc); shv.erase(shv.begin() + long(ri), shv.begin() + long(ri + rc)); same("Remove(index,count)");
+				size_t removed = ed.Remove([] (CRef r) { return (r[id] & 1) != 0; });
+				size_t before = shv.size();
+				shv.erase(std::remove_if(shv.begin(), shv.end(), [&] (long q) { return (sh[size_t(q)].v[0] & 1) != 0; }), shv.end());
+				if (removed != before - shv.size()) bed.bad("Selection::Remove(filter) returns the wrong count"); same("Remove(filter)");
+				if (ed.GetCount() > 0) { ed.Set(size_t(0), src[n0 / 2]); shv[0] = expPos[n0 / 2]; same("Set"); }
+				ed.Add(src.GetBegin(), src.GetEnd()); shv.insert(shv.end(), expPos.begin(), expPos.end()); same("Add(range)");
+				if (lb & 1) { ed.Assign(src.GetBegin(), src.GetEnd()); shv = expPos; same("Assign"); }
+			}
+			ed_n = long(shv.size()); for (long q : shv) ed_d = foldDigest(ed_d, q + 1);
+		}
 		long d = 0; for (auto& k : gotKeys) d = foldDigest(d, keyHash(k));
-		out << "s " << gotKeys.size() << " " << d << " " << lb << " " << ub << " g " << gd;
+		out << "s " << gotKeys.size() << " " << d << " " << lb << " " << ub << " g " << gd << " e " << ed_n << " " << ed_d;
 	}
 	else if (cmd == "D")
 	{
